@@ -128,6 +128,12 @@ class FixedGrid(Grid):
         if self.localize_t0 and k>=0:
             yield (t0_local[k]+Tk==t0_local[k+1],{})
 
+    def bounds_each(self, k, T, N):
+        """min/max bounds on the length of control interval k, for grids whose intervals have no common pattern"""
+        if not (self.min==0 and self.max==inf):
+            n = self.normalized(N)
+            yield (self.min <= (T*(n[k+1]-n[k]) <= self.max), {})
+
     def get_t0_local(self, opti, k, t0, N):
         if self.localize_t0:
             if k==0:
@@ -234,6 +240,12 @@ class FunctionGrid(FixedGrid):
 
     def normalized(self, N):
         return self.normalized_fun(N)
+
+    def bounds_T(self, T_local, t0_local, k, T, N):
+        for e in FixedGrid.bounds_each(self, k, T, N):
+            yield e
+        for e in FixedGrid.bounds_T(self, T_local, t0_local, k, T, N):
+            yield e
 class DensityGrid(FixedGrid):
     def __init__(self, density, integrator='cvodes',integrator_options=None,**kwargs):
         """
@@ -281,6 +293,12 @@ class DensityGrid(FixedGrid):
         res.append(1.0)
         self.cache[N] = res
         return res
+
+    def bounds_T(self, T_local, t0_local, k, T, N):
+        for e in FixedGrid.bounds_each(self, k, T, N):
+            yield e
+        for e in FixedGrid.bounds_T(self, T_local, t0_local, k, T, N):
+            yield e
     
 class DenseEdgesGrid(DensityGrid):
     def __init__(self, multiplier=10, edge_frac=0.1, **kwargs):
